@@ -801,6 +801,16 @@ func genQuotaFile(t *rapid.T) (string, []string) {
 		if messy && rapid.IntRange(0, 2).Draw(t, "otherhost") == 2 {
 			b.WriteString("    filter:\n      url: \"other.org/*\"\n")
 		}
+		// an internal limit that is wrong on its own, under a parent that is fine: no strategy at all, or a unit
+		// of its own that the engine does not know
+		childUnit := unit
+		if rapid.IntRange(0, 5).Draw(t, "child-own-fault") == 0 {
+			tags = append(tags, "invalid-quota-field")
+			if rapid.Bool().Draw(t, "no-strategy") {
+				continue
+			}
+			childUnit = rapid.SampledFrom([]string{"week", "fortnight", "", "Minute"}).Draw(t, "child-unit")
+		}
 		b.WriteString("    strategy:\n")
 		switch rapid.IntRange(0, 2).Draw(t, "childkind") {
 		case 0:
@@ -812,7 +822,7 @@ func genQuotaFile(t *rapid.T) (string, []string) {
 		case 1:
 			fmt.Fprintf(&b, "      concurrent:\n        max_request_count: %s\n", num("ccmax"))
 		default:
-			fmt.Fprintf(&b, "      fixed_window:\n        max: %s\n        interval: %s\n        interval_unit: %s\n", num("cmax2"), num("cint"), unit)
+			fmt.Fprintf(&b, "      fixed_window:\n        max: %s\n        interval: %s\n        interval_unit: %s\n", num("cmax2"), num("cint"), childUnit)
 		}
 	}
 	s := b.String()
